@@ -49,6 +49,7 @@ func init() {
 		QuickSecs:    40,
 		ThoroughSecs: 900,
 		RunsPerJob:   3,
+		WarmKnob:     true,
 		Rule: "a run creates fresh shared objects (SM2 private key, ECDH private key, SM9 sign/encrypt master and user keys, SM4 block + GCM AEAD, lazily-parsed certificate pools) and 2-6 tasks; the program is the schedule: the ordered list of (task, operation) releases. " +
 			"abstract history = ordered list of (task, op kind, first-use-or-steady flag); non-trivial = at least two different tasks touch the same shared object; distinct = distinct abstract histories",
 		Real: []string{"sm2", "ecdh", "sm9 + internal/sm9 + bn256", "sm4 + internal/sm4 (GCM, CBC, CTR, ECB constructors)", "sm3", "smx509 (CertPool, Verify)", "Go race detector (happens-before monitor)"},
@@ -69,6 +70,10 @@ var c20Kinds = []string{
 }
 
 var c20Group = map[string]string{}
+
+// c20Warmed: the warm-up (Cfg "warm") has run in this process. Process-wide lazily built tables are process state by
+// nature; outputs of a run do not depend on it.
+var c20Warmed bool
 
 func init() {
 	for _, k := range c20Kinds {
@@ -106,6 +111,32 @@ func genC20(r *sim.Rand, tier string) *sim.Program {
 			p.Add(fresh[r.Intn(len(fresh))], r.Intn(nt), r.Intn(1<<30)).WithB(r.Bytes(16))
 		}
 		return p
+	}
+	if r.Chance(1, 5) {
+		// same-object program: every task makes its FIRST operation on the shared objects one of two kinds that use the
+		// same lazily initialised per-object state (cached inverse, derived public key, pairing base and GT table,
+		// lazily parsed certificates, GHASH tables ...), half of the time in a warm process
+		pairs := [][2]string{{"sm2.sign", "sm2.signsm2"}, {"sm2.decrypt", "sm2.kx"}, {"sm2.verify", "sm2.encrypt"}, {"ecdh.pub", "ecdh.ecdh"}, {"ecdh.mqv", "ecdh.pub"},
+			{"sm9.sign", "sm9.verify"}, {"sm9.verify", "sm9.verify"}, {"sm9.wrap", "sm9.enc"}, {"sm9.wrap", "sm9.wrap"}, {"sm9.unwrap", "sm9.dec"}, {"sm9.genuser", "sm9.pub"},
+			{"pool.verify", "pool.clone"}, {"sm4.newgcm", "sm4.gcm"}, {"sm4.cbc", "sm4.ctr"}, {"sm2.otherza", "sm2.newhash"}}
+		pr := pairs[r.Intn(len(pairs))]
+		if r.Chance(1, 2) {
+			p.SetC("warm", 1)
+		}
+		for _, t := range r.Perm(nt) {
+			p.Add(pr[r.Intn(2)], t, r.Intn(1<<30)).WithB(r.Bytes(r.PickInt(16, 32, 33, 100)))
+		}
+		for i := r.Intn(3); i > 0; i-- {
+			p.Add(pr[r.Intn(2)], r.Intn(nt), r.Intn(1<<30)).WithB(r.Bytes(r.PickInt(16, 32, 300)))
+		}
+		return p
+	}
+	if r.Chance(1, 2) {
+		// warm process: every package-level singleton is used once, sequentially, before the tasks start. In a cold
+		// process the first use of those singletons happens inside the tasks, and the library's own synchronisation of
+		// that first use orders accesses to per-object state that are otherwise unordered (seeded change C10-12 was only
+		// visible in runs that were not the first of their process).
+		p.SetC("warm", 1)
 	}
 	// swarm: enabled groups (sm9 is expensive: enabled less often and with few ops)
 	groups := []string{}
@@ -710,6 +741,21 @@ func execC20(t *testing.T, p *sim.Program, c *sim.Ctx) {
 		nt = 8
 	}
 	seed := p.CB("seed")
+	if p.C("warm") == 1 && !c20Warmed {
+		c20Warmed = true
+		all := map[string]bool{}
+		for _, k := range c20Kinds {
+			if g := c20Group[k]; g != "fresh" {
+				all[g] = true
+			}
+		}
+		if w, err := newC20World(derive([]byte("warm-up"), "w", 32), all, nil); err == nil {
+			for _, k := range c20Kinds {
+				c20Do(w, k, 1, []byte("warm-up message 0123456789abcdef"))
+			}
+			c.Hit("probe:process-warmed-before-tasks")
+		}
+	}
 	need := map[string]bool{}
 	for _, op := range p.Ops {
 		g := c20Group[op.K]
